@@ -1798,3 +1798,9 @@ mod tests {
         let _ = fs::remove_file("test_data/get_or_create_file_test");
     }
 }
+
+// Verification hook: harnesses live outside the repository (see MANIFEST.hooks of the verifier).
+#[cfg(kani)]
+pub(crate) mod verif_kani {
+    include!(concat!(env!("FINDUTILS_VERIF_DIR"), "/harness/matchers.rs"));
+}
